@@ -180,7 +180,7 @@ def shapes(tier, rnd):
     for n in (1, 2, 3, 4):
         tys = [POOL[(i + n) % 4] for i in range(n)]
         out.append(S("tuple%d" % n, "tuple", [(None, t) for t in tys]))
-        out.append(S("named%d" % n, "named", [("f%d" % i, t) for i, t in enumerate(tys)]))
+        out.append(S("named%d" % n, "named", [(("w", "c", "x", "a", "m", "b")[i], t) for i, t in enumerate(tys)]))
     out.append(S("named-tuplefield", "named", [("a", "(u8, i8)"), ("b", "bool")]))
     out.append(S("partial-only", "named", [("a", "Po"), ("b", "u8")], traits=["Clone", "PartialEq", "PartialOrd"]))
     out.append(S("float-field", "named", [("a", "f32"), ("b", "u8")], traits=["Clone", "PartialEq", "PartialOrd", "Default"]))
